@@ -173,6 +173,7 @@ def automaton(ctx, inst, transport, case, final=True, api=None):
     eof_n = close_n = close_in_n = None
     close_in = False
     winok = {}  # thread -> last successful window allocation event
+    used_grants = set()
     eofset_n = closedset_n = None
     seen = set()
 
@@ -196,7 +197,8 @@ def automaton(ctx, inst, transport, case, final=True, api=None):
             elif t == "closedset" and closedset_n is None:
                 closedset_n = e["n"]
             continue
-        if d == "out" and close_in and close_out and t != cm.CLOSE:
+        if d == "out" and close_in and close_out and t not in (cm.CLOSE, cm.DATA, cm.EXT):
+            # (late DATA/EXTENDED_DATA is classified by mechanism further down: lock-release gap / reused grant / late grant)
             # both CLOSEs exchanged: the channel is released, nothing at all may name it any more
             rel = max(close_n, close_in_n)
             inflight = False
@@ -238,12 +240,21 @@ def automaton(ctx, inst, transport, case, final=True, api=None):
                 once("second CLOSE sent on one channel", "a side sent CHANNEL_CLOSE twice")
         elif t in (cm.DATA, cm.EXT):
             ctx.count("data_msgs_seen")
+            w = winok.get(e.get("thread"))
+            # one window grant (one pass through Channel._send's critical section) pays for exactly one message
+            fresh = w is not None and w["n"] not in used_grants
+            if w is not None:
+                used_grants.add(w["n"])
             if eof_out or close_out:
-                w = winok.get(e.get("thread"))
                 flags = [x for x in (eofset_n, closedset_n) if x is not None]
                 first_flag = min(flags) if flags else None
                 after = "EOF" if eof_out and not close_out else "CLOSE" if close_out and not eof_out else "EOF+CLOSE"
-                if w is not None and first_flag is not None and w["n"] < first_flag:
+                if w is not None and not fresh:
+                    ctx.count("data_after_end_from_a_reused_grant")
+                    once("data after own EOF/CLOSE: packet k>1 of one call (%s after %s)" % (cm.NAMES[t], after),
+                         "a later packet of a multi-packet send went out after the stream had been ended: the flags were "
+                         "checked once per call, not once per packet", grant=dict(n=w["n"], len=w["len"]), msg_len=e["len"])
+                elif w is not None and first_flag is not None and w["n"] < first_flag:
                     ctx.violation(KNOWN_GAP,
                                   "a writer that had been granted window before another thread ended the stream sent its "
                                   "%s after the %s was on the wire" % (cm.NAMES[t], after),
@@ -470,7 +481,13 @@ def run_kex_case(ctx, case, rng):
         if rk.is_alive() or errs:
             ctx.inconclusive("re-key with in-flight close did not complete: %s" % errs)
             return
-        p.wait_quiet(0.05, 10)
+        # renegotiate_keys() returns when the peer's NEWKEYS was parsed; the messages held back during the exchange are
+        # flushed by the transport thread right after that: wait for that state, not for a quiet link alone
+        settled = pair.wait_for(lambda: all(t.clear_to_send.is_set() and not getattr(t, "_deferred_user_messages", ())
+                                           for t in (p.tc, p.ts)) and p.link.quiescent(0.1), 30, 0.005)
+        if not settled:
+            ctx.inconclusive("transports did not settle after the re-key (kex stratum)")
+            return
         # did X really read the peer's message inside its kex window (own KEXINIT .. own NEWKEYS)?
         inside = False
         open_kex = False
@@ -497,7 +514,8 @@ def run_kex_case(ctx, case, rng):
             if t.is_alive() or errs:
                 ctx.inconclusive("idle re-key did not complete: %s" % errs)
                 return
-            p.wait_quiet(0.05, 10)
+            pair.wait_for(lambda: all(t.clear_to_send.is_set() and not getattr(t, "_deferred_user_messages", ())
+                                      for t in (p.tc, p.ts)) and p.link.quiescent(0.1), 30, 0.005)
             ctx.count("idle_rekeys_after_close")
             for e in p.rec.snapshot()[mark:]:
                 if e.get("kind") == "msg" and e["dir"] == "out" and e["type"] >= 80:
@@ -678,6 +696,71 @@ def do_op_read(fn, n, rec):
         rec.add(kind="api", side="v", op=fn.__name__, phase="ret", thread=threading.get_ident())
 
 
+def run_burst_case(ctx, case, rng):
+    """One send()/sendall()/send_stderr() call with a payload of several max-packet chunks on a slow sender, while another
+    thread (or the peer's CLOSE) ends the stream after the first packet of that call went out and before the last."""
+    role = case["role"]
+
+    def on_send(tap, ptype, raw):
+        if ptype in (cm.DATA, cm.EXT):
+            time.sleep(case["gap"])  # a slow link: the burst stays in progress
+
+    p = pair.Pair(rng=rng, on_send={role: on_send})
+    cm.watch(p.tc, p.rec, "c")
+    cm.watch(p.ts, p.rec, "s")
+    try:
+        if not p.start() or not p.auth():
+            ctx.inconclusive("handshake failed (burst)")
+            return
+        cm.diverge_ids(p, rng)
+        c, s = p.session()
+        x, y = (c, s) if role == "c" else (s, c)
+        yside = "s" if role == "c" else "c"
+        rd = cm.PollReader(y, rng.getrandbits(32), 65536).start()
+        payload = b"\x6b" * (case["packets"] * (x.out_max_packet_size - 64))
+        n0 = len(p.msgs(role, "out", (cm.DATA, cm.EXT)))
+        t = threading.Thread(target=lambda: do_op_payload(x, case["api"], payload, p.rec, role), daemon=True)
+        t.start()
+        if not pair.wait_for(lambda: len(p.msgs(role, "out", (cm.DATA, cm.EXT))) > n0, 20, 0.0005):
+            ctx.inconclusive("first packet of the burst not seen")
+            rd.stop()
+            return
+        if case["ender"] == "peer_close":
+            do_op(y, "close", 0, p.rec, yside)
+        else:
+            do_op(x, case["ender"], 0, p.rec, role)
+        t.join(60)
+        rd.stop()
+        if t.is_alive():
+            ctx.inconclusive("burst call did not return")
+            return
+        sent = len(p.msgs(role, "out", (cm.DATA, cm.EXT))) - n0
+        ctx.count("burst_cases")
+        if 1 <= sent < case["packets"]:
+            ctx.count("bursts_cut_short_by_end_of_stream")
+        do_op(x, "close", 0, p.rec, role)
+        do_op(y, "close", 0, p.rec, yside)
+        released = pair.wait_for(lambda: p.tc._channels.get(c.get_id()) is None and p.ts._channels.get(s.get_id()) is None
+                                 and p.link.quiescent(0.02), 5, 0.003)
+        final = released or p.wait_quiet(ctx.pick(3.0, 6.0), 30)
+        ev = p.rec.snapshot()
+        for side, tr in (("c", p.tc), ("s", p.ts)):
+            for inst in cm.ledger(ev, side)[0]:
+                automaton(ctx, inst, tr, case, final, [a for a in ev if a.get("kind") == "api" and a["side"] == side])
+        return True
+    finally:
+        p.close()
+
+
+def do_op_payload(chan, api, payload, rec, side):
+    rec.add(kind="api", side=side, op=api, phase="call", thread=threading.get_ident())
+    try:
+        res = getattr(chan, api)(payload)
+    except Exception as e:
+        res = "raise:" + type(e).__name__
+    rec.add(kind="api", side=side, op=api, phase="ret", res=res, thread=threading.get_ident())
+
+
 REQ_KINDS = ("exec", "shell", "pty", "x11", "subsystem")
 
 
@@ -785,6 +868,14 @@ def run(ctx):
                     api=("send", "send_stderr", "sendall")[j // 4 % 3], size=(1, 100, 40000)[j % 3])
         r = ctx.guard(run_parked_case, ctx, case, rng)
         ctx.case(("c22-parked", repr(case)), sample=case if i == 0 else None, nontrivial=bool(r))
+    for i in range(ctx.pick(5, 40)):
+        j = i * ctx.nshards + ctx.shard
+        case = dict(kind="multi-packet-call-vs-end-of-stream", role="cs"[j % 2],
+                    api=("sendall", "send", "sendall_stderr", "send_stderr")[j // 2 % 4],
+                    ender=("shutdown_write", "close", "peer_close", "shutdown2")[j // 8 % 4], packets=(6, 3, 10)[j % 3],
+                    gap=(0.002, 0.006)[j // 4 % 2])
+        r = ctx.guard(run_burst_case, ctx, case, rng)
+        ctx.case(("c22-burst", repr(case), i), sample=case if i == 0 else None, nontrivial=bool(r))
     for i in range(ctx.pick(4, 30)):
         j = i * ctx.nshards + ctx.shard
         case = dict(kind="peer-closes-first", role="cs"[j % 2], data=(0, 10, 5000)[j // 2 % 3], peer_eof_first=bool(j // 6 % 2))
@@ -830,6 +921,8 @@ def run(ctx):
     ctx.require("kex_cases_run", 30)
     ctx.require("parked_writer_cases", 24)
     ctx.require("pending_request_cases", 30)
+    ctx.require("burst_cases", 30)
+    ctx.require("bursts_cut_short_by_end_of_stream", 8)
     ctx.require("peer_closed_first_cases", 24)
     ctx.require("local_side_closed_by_peer_only", 24)
     ctx.require("bare_close_cases", 24)
